@@ -112,14 +112,23 @@ class C03(Prop):
                 m40.append(w)
         ops40 = []
         for i in range(n):
+            for l in (1, 2, 3):
+                w = [0] * n + [rng.randrange(4)]
+                w[i] = l
+                ops40.append(w)
             for j in range(i + 1, n):
                 w = [0] * n + [rng.randrange(4)]
                 w[i], w[j] = rng.randrange(1, 4), rng.randrange(1, 4)
                 ops40.append(w)
+        for _ in range(500):
+            w = [0] * n + [rng.randrange(4)]
+            for q in rng.sample(range(n), 3):
+                w[q] = rng.randrange(1, 4)
+            ops40.append(w)
         rng.shuffle(ops40)
-        ops40 = ops40[:1100] + [[rng.randrange(4) for _ in range(n)] + [rng.randrange(4)] for _ in range(60)]
+        ops40 = ops40[:1250] + [[rng.randrange(4) for _ in range(n)] + [rng.randrange(4)] for _ in range(60)]
         yield {"k": "tf", "kind": "list", "m": m40, "ins": ops40, "pkg": "py"}
-        yield {"k": "tf", "kind": "poly", "m": m40, "ins": ops40[:1030], "pkg": "py"}
+        yield {"k": "tf", "kind": "poly", "m": m40, "ins": ops40[:1100], "pkg": "py"}
         yield {"k": "tf", "kind": "list", "m": m40, "ins": ops40[:200], "pkg": "torch"}
         # kernels: pauli_combine with arbitrary selection matrices, ps0
         for n in (1, 2, 3):
